@@ -29,10 +29,14 @@ pub enum WKind {
     ListElem,
     /// `Writer::write_title(text)`
     Title,
+    /// `ufmt::uwrite!(w, "[{}]{}{}", text, 7u8, "")`: several arguments, an integer, an empty last piece
+    UfmtArgs,
+    /// `core::write!(w, "[{}]{}{}", text, 7u8, "")`
+    FmtArgs,
 }
 
 impl WKind {
-    pub const ALL: [WKind; 10] = [
+    pub const ALL: [WKind; 12] = [
         WKind::Str,
         WKind::Ln,
         WKind::Ufmt,
@@ -43,6 +47,8 @@ impl WKind {
         WKind::FmtChars,
         WKind::ListElem,
         WKind::Title,
+        WKind::UfmtArgs,
+        WKind::FmtArgs,
     ];
     fn tag(self) -> &'static str {
         match self {
@@ -56,6 +62,8 @@ impl WKind {
             WKind::FmtChars => "FC",
             WKind::ListElem => "LE",
             WKind::Title => "T",
+            WKind::UfmtArgs => "UA",
+            WKind::FmtArgs => "FA",
         }
     }
     fn from_tag(t: &str) -> Option<Self> {
@@ -70,6 +78,8 @@ impl WKind {
             "FC" => WKind::FmtChars,
             "LE" => WKind::ListElem,
             "T" => WKind::Title,
+            "UA" => WKind::UfmtArgs,
+            "FA" => WKind::FmtArgs,
             _ => return None,
         })
     }
@@ -105,6 +115,7 @@ impl WCall {
                 s.push('\n');
                 s
             }
+            WKind::UfmtArgs | WKind::FmtArgs => format!("[{}]7", self.text),
             k if k.appends_lf() => format!("{}\n", self.text),
             _ => self.text.clone(),
         }
@@ -131,6 +142,8 @@ pub struct HScript {
     pub calls: Vec<WCall>,
     pub prompt: Option<usize>,
     pub ret: Ret,
+    /// `CliHandle::set_prompt` is called before the writer calls instead of after them
+    pub prompt_first: bool,
 }
 
 impl Default for HScript {
@@ -139,6 +152,7 @@ impl Default for HScript {
             calls: Vec::new(),
             prompt: None,
             ret: Ret::Parse,
+            prompt_first: false,
         }
     }
 }
@@ -350,9 +364,10 @@ impl Trace {
                 Ev::Handler(h) => {
                     let _ = write!(
                         s,
-                        "handler ret={} prompt={}",
+                        "handler ret={} prompt={}{}",
                         ret_tag(h.ret),
-                        h.prompt.map(|p| p.to_string()).unwrap_or_else(|| "-".into())
+                        h.prompt.map(|p| p.to_string()).unwrap_or_else(|| "-".into()),
+                        if h.prompt_first { " pfirst=1" } else { "" }
                     );
                     calls_to_text(&h.calls, &mut s);
                     s.push('\n');
@@ -475,6 +490,8 @@ impl Trace {
                     for t in toks {
                         if let Some(v) = kv(t, "ret") {
                             h.ret = parse_ret(v).map_err(err)?;
+                        } else if let Some(v) = kv(t, "pfirst") {
+                            h.prompt_first = v == "1";
                         } else if let Some(v) = kv(t, "prompt") {
                             h.prompt = if v == "-" {
                                 None
